@@ -830,7 +830,12 @@ def oracle_history(ctx: Ctx, sc: dict, tr: dict, full: bool = False) -> dict:
                     continue
                 i1, i2 = by_inc[c1["inc"]], by_inc[c2["inc"]]
                 gone1 = [x for x in (i1["t_killed"], H.t_fail.get(i1["inc"])) if x is not None and x <= c2["t"]]
-                if gone1 or H.paused_at(i1["inc"], c2["t"]) or H.paused_at(i2["inc"], c2["t"]) or H.paused_at(i1["inc"], c1["t"]):
+                yielded1 = any(v and c1["t"] <= t <= c2["t"] + H.W for (t, v) in H.pz.get(i1["inc"], []))    # told to pause: "queued events"
+                # the first handling was cut off by its operator's exit timeout (not finished when the operator was gone): at-least-once
+                cut1 = i1["t_stopped"] is not None and i1["t_stopped"] <= c2["t"] and (c1.get("t_end") is None or c1["t_end"] >= i1["t_stopped"] - LAT)
+                if cut1:
+                    continue
+                if gone1 or yielded1 or H.paused_at(i1["inc"], c1["t"]) or H.paused_at(i1["inc"], c2["t"]) or H.paused_at(i2["inc"], c2["t"]):
                     continue
                 reported = True
                 what = (f"change {key[1]}(x={key[2]}) of {c1['name']} handled by {i1['name']} at {c1['t']} (until {c1.get('t_end')}) AND by "
@@ -856,27 +861,30 @@ def oracle_history(ctx: Ctx, sc: dict, tr: dict, full: bool = False) -> dict:
         if e[1] != "edit":
             continue
         te, name, xv = e[0], e[2], e[3]["spec"]["x"]
-        if te - Wg < 0 or te + Wg >= H.t_end:
+        if te - Wg < 0 or te + Wg + 8 * float(sc.get("handler_delay") or 0) >= H.t_end:
             continue
         lo = bisect.bisect_left(moments, te - Wg)
         if lo < len(moments) and moments[lo] <= te + Wg:
             continue            # something about who runs / who is paused moved near the edit
         if any(e2[1] == "edit" and e2[2] == name and te < e2[0] <= te + Wg for e2 in sc["timeline"]):
             continue
-        present = [i for i in incs if i["inc"] in H.made and i["t_start"] < te - Wg and H.end_of(i) > te + Wg]
+        busy = 0.0          # a busy operator (handlers take time, one object is handled serially) gets to the edit later
+        if sc.get("handler_delay"):
+            busy = float(sc["handler_delay"]) * (1 + sum(1 for e2 in sc["timeline"] if e2[1] in ("edit", "create") and te - 60 <= e2[0] <= te))
+        present = [i for i in incs if i["inc"] in H.made and i["t_start"] < te - Wg and H.end_of(i) > te + Wg + busy]
         actives = [i for i in present if H.paused_at(i["inc"], te) is False]
+        now_active = [i for i in incs if i["inc"] in H.made and H.made[i["inc"]] <= te < H.end_of(i) and H.paused_at(i["inc"], te) is False]
         calls = [c for c in tr["calls"] if c["kind"] == "update" and c["name"] == name and c["x"] == xv]
-        near = [c for c in calls if te <= c["t"] <= te + Wg]
+        near = [c for c in calls if te <= c["t"] <= te + Wg + busy]
         stats["quiet_edits"] = stats.get("quiet_edits", 0) + 1
-        if len(actives) == 1:
+        if len(actives) == 1 and [i["inc"] for i in now_active] == [actives[0]["inc"]]:
             mine = [c for c in near if c["inc"] == actives[0]["inc"]]
             if len(mine) != 1:
                 fail(f"edit x={xv} at {te}: the only active operator {actives[0]['name']} ran the update handler {len(mine)} times",
                      "quiet edit not handled exactly once by the active operator", t=te)
-            elif len(calls) != 1 and not any_kill:
-                fail(f"edit x={xv} at {te} (quiet period, one active operator) was handled {len(calls)} times: "
-                     f"{[(c['op'], c['t']) for c in calls]}", "quiet edit handled more than once", t=te)
-        elif not actives and near:
+            # (that nobody else handles it as well is clause (H), for every edit)
+        elif not now_active and [c for c in near if c["t"] <= te + Wg]:
+            near = [c for c in near if c["t"] <= te + Wg]
             fail(f"edit x={xv} at {te}: every running operator is paused, yet {[(c['op'], c['t']) for c in near]} handled it",
                  "quiet edit handled although every operator is paused", t=te)
     return stats
